@@ -342,7 +342,7 @@ fn guarded(idx: u64, text: Arc<String>) -> CaseResult {
 }
 
 fn run_front(args: &Args) {
-    let corpus = fams::Bases::load(args.extra.as_deref(), args.get("bases").unwrap_or("run"));
+    let corpus = fams::Bases::load(args.extra.as_deref(), args.get("bases").unwrap_or("all"));
     let fams = fams::select_families(args.get("families").unwrap_or("default"));
     let cli_every: u64 = args.get("cli_every").map(|s| s.parse().unwrap()).unwrap_or(0);
     let clidir = args.get("clidir").map(PathBuf::from);
@@ -456,7 +456,7 @@ fn main() {
         "front" => run_front(&args),
         "file" => run_file(&args),
         "show" => {
-            let corpus = fams::Bases::load(args.extra.as_deref(), args.get("bases").unwrap_or("run"));
+            let corpus = fams::Bases::load(args.extra.as_deref(), args.get("bases").unwrap_or("all"));
             let fams = fams::select_families(args.get("families").unwrap_or("default"));
             for idx in args.indices() {
                 let (case, base) = fams::gen_case(&corpus, &fams, args.seed, idx);
